@@ -47,6 +47,7 @@ const (
 	keySpillCtxColl   = "C10:groupby:spill-foreign-context:collect-union-of-mixed-types"
 	keySortedMissing  = "C10:groupby:declared-sorted:missing-and-null-keys:duplicate-group"
 	keySortedSpillNil = "C10:groupby:sorted-input-spill:panic-missing-primary-key"
+	keyFuseUnion      = "C10:agg:fuse:partial-union-of-identical-types"
 )
 
 func main() {
@@ -363,7 +364,12 @@ func checkAgg(c *Ctx, x aggCase) {
 		// only through the real code itself (C20 owns the merge): partials vs direct, and
 		// direct over one representative per distinct type (the model: state = set of types).
 		if canonType(realDirect) != canonType(realPart) {
-			fail("oracle", "partial-vs-direct", fmt.Sprintf("direct %s, partials %s", realDirect, realPart))
+			how := "partial-vs-direct"
+			if canonTypeDedup(realDirect, true) == canonTypeDedup(realPart, true) {
+				// the only difference: a union whose members are one and the same type
+				how = "partial-union-of-identical-types"
+			}
+			fail("oracle", how, fmt.Sprintf("direct %s, partials %s", realDirect, realPart))
 		}
 		seen := map[string]bool{}
 		var reps []string
@@ -1819,6 +1825,9 @@ func runWitnesses(c *Ctx) {
 		checkAgg(c, aggCase{Fn: "min", Vals: []string{"null(uint64)", "5"}, Chunks: []int{2}})
 	})
 	expect(keyBigUint, func() { bigUintWitness(c) })
+	expect(keyFuseUnion, func() {
+		checkAgg(c, aggCase{Fn: "fuse", Vals: []string{"1", "5"}, Chunks: []int{1, 1}})
+	})
 	expect(keySortedSpillNil, func() {
 		// descending: missing/null first.  The first spill holds three rows with a missing
 		// primary key and one with key 7; when one of the former happens to be its last row
@@ -1857,7 +1866,11 @@ func bigUintWitness(c *Ctx) {
 }
 
 // canonType: a fuse result compared modulo record field order (C20 owns field order).
-func canonType(s string) string {
+func canonType(s string) string { return canonTypeDedup(s, false) }
+
+// canonTypeDedup additionally removes repeated members of unions (and a union left with a
+// single member becomes that member) when dedup is set.
+func canonTypeDedup(s string, dedup bool) string {
 	// sort the comma-separated items of every innermost {...} group, repeatedly
 	b := []byte(s)
 	var rec func(i int) (string, int)
@@ -1870,6 +1883,20 @@ func canonType(s string) string {
 			case '{', '[', '(':
 				close := map[byte]byte{'{': '}', '[': ']', '(': ')'}[ch]
 				inner, j := rec(i + 1)
+				if dedup && ch == '(' {
+					var uniq []string
+					for _, m := range splitTop(inner) {
+						if len(uniq) == 0 || uniq[len(uniq)-1] != m {
+							uniq = append(uniq, m)
+						}
+					}
+					if len(uniq) == 1 {
+						cur.WriteString(uniq[0])
+						i = j + 1
+						continue
+					}
+					inner = strings.Join(uniq, ",")
+				}
 				cur.WriteByte(ch)
 				cur.WriteString(inner)
 				cur.WriteByte(close)
